@@ -6,6 +6,9 @@ use crate::hist::*;
 
 pub fn prop() -> HistProp {
     let mut opts = HistOpts::new(Profile::Typed);
+    // timestamp setters are part of the histories: they must not disturb the tree or later calls
+    opts.with_time = true;
+    opts.twin = true;
     opts.contract = true;
     HistProp {
         opts,
@@ -15,7 +18,7 @@ pub fn prop() -> HistProp {
         cases_quick: 2500,
         cases_thorough: 120_000,
         nontrivial: |s, _| s.lower_only_ops >= 1 && s.multi_layer_ops >= 1,
-        rule: "overlays of 1..4 layers (Mem/Phys/nested stacks) with generated type-consistent contents (same path in several layers with equal or different bytes, directories split across layers, empty layers); the initial view must equal the union (first layer wins for files, directories merge) and typed C01 histories vec(op,0..=35) must follow the C01 contract relative to it; non-trivial = >=1 op on an entry existing only in a lower layer and >=1 op on a path present in two layers",
+        rule: "overlays of 1..4 layers (Mem/Phys/nested stacks) with generated contents (same path in several layers with equal or different bytes, directories split across layers, empty layers, a directory above a same-named file of a deeper layer; one stack in thirteen has the read-only embedded fixture as lowest layers); timestamp setters in the histories; a second OverlayFS instance over the same layers (one built before the history, one after every step) must show the same tree; the initial view must equal the union (first layer wins for files, directories merge) and typed C01 histories vec(op,0..=35) must follow the C01 contract relative to it; non-trivial = >=1 op on an entry existing only in a lower layer and >=1 op on a path present in two layers",
         floors: vec![("distinct_nontrivial", 50), ("lower_only_mutations", 100)],
         assumptions: vec!["statically type-conflicting layers (file in one, directory in another) are not generated: the documentation defines the union only for consistent layers"],
         exclude: crate::findings::hist_excluder("C09"),
